@@ -248,7 +248,7 @@ func (tr *FnTr) contractCallInfo(x ssa.Value, f *calleeInfo, ct *FuncContract, a
 	if !ct.Pure {
 		var frame []cellRange
 		for _, m := range ct.Modifies {
-			frame = append(frame, ctx.evalLval(m.E)...)
+			frame = append(frame, ctx.lvals(m.E)...)
 		}
 		for _, r := range frame {
 			tr.writeCheck(r.Obj, r.Lo, r.Hi)
